@@ -43,13 +43,13 @@ def exec_RD(t):
         x = mkarr(codes, r, c, s, n, f, overflow=o)
         before = codes_of(x)
         kw = {}
-        if axis != 'n' and fn not in ('transpose', 'diagonal', 'trace', 'sort'):
+        if axis != 'n' and fn not in ('transpose', 'diagonal', 'trace'):
             kw['axis'] = int(axis)
         if route == 'numpy':
             z = NPF[fn](x, **kw)
         else:
             if fn == 'sort':
-                x.sort()
+                x.sort(**kw)
                 z = x
             elif fn == 'transpose':
                 z = x.transpose()
@@ -152,8 +152,8 @@ def generate(tier, rng):
             continue
         if fn in ('prod', 'cumprod') and size * n > 53:
             continue
-        axis = rng.choice(['n', '0'] + (['1'] if two else []))
-        if fn in ('transpose', 'diagonal', 'trace', 'sort'):
+        axis = rng.choice(['n', '0', '-1'] + (['1', '-2'] if two else []))
+        if fn in ('transpose', 'diagonal', 'trace'):
             axis = 'n'
         route = rng.choice(['numpy', 'method'])
         yield 'RD %s %s %s %d %d %s %s %s' % (fn, route, axis, r, c, fm(s, n, f), rng.choice(OVFS), L(elems(rng, lo, hi, size)))
@@ -176,7 +176,12 @@ def generate(tier, rng):
         lo, hi = lims(s, n)
         cs = elems(rng, lo, hi, rng.randint(1, 8))
         a, b = sorted([rng.randint(lo, hi), rng.randint(lo, hi)])
-        yield 'RDC %s %s %s %s %s' % (rng.choice(['numpy', 'method']), fm(s, n, f), rng.choice([str(a), '-']) if rng.random() < 0.8 else str(a), str(b), L(cs))
+        side = rng.choice(['both', 'both', 'lower-only', 'upper-only'])
+        yield 'RDC %s %s %s %s %s' % (rng.choice(['numpy', 'method']), fm(s, n, f), '-' if side == 'upper-only' else str(a), '-' if side == 'lower-only' else str(b), L(cs))
+        if side != 'both':
+            # a one-sided clip must leave the other extreme alone: all codes of the upper / lower half
+            ext = [hi, hi - 1, lo, lo + 1, (hi + lo) // 2] + cs[:2]
+            yield 'RDC %s %s %s %s %s' % (rng.choice(['numpy', 'method']), fm(s, n, f), '-' if side == 'upper-only' else str(a), '-' if side == 'lower-only' else str(b), L(ext))
 
 
 def nontrivial(full_line, model):
